@@ -126,6 +126,17 @@ Theorem C18_no_keyword_dropped :
 Proof. exact no_keyword_dropped. Qed.
 Print Assumptions C18_no_keyword_dropped.
 
+(** Every forwarded parameter other than the objective and the starting point reaches SciPy
+    *unmodified* (bare parameter at the call, never re-bound in the wrapper -- generated list
+    [kw_identity]): bracket and bounds tuples keep their arity and entries, tol / options /
+    method / args are the caller's objects. *)
+Theorem C18_forwarded_values_unmodified :
+  forall e ts, In e kw_table -> kw_disp e = Forwarded ts ->
+    kw_name e <> "func"%string -> kw_name e <> "x0"%string ->
+    In (kw_fun e, kw_name e) kw_identity.
+Proof. exact forwarded_values_unmodified. Qed.
+Print Assumptions C18_forwarded_values_unmodified.
+
 Theorem C18_keyword_table_complete_and_bounded :
   table_complete kw_table = true /\ (List.length kw_table <= 64)%nat.
 Proof. exact (conj kw_table_complete kw_table_bound). Qed.
